@@ -161,6 +161,15 @@ struct WireWorld : World {
             uint32_t val = w < sizeof WORDS / 4 ? WORDS[w] : (uint32_t)(n - 4 - o) + (uint32_t)(w - sizeof WORDS / 4) - 1;   // also: the exact remaining length -1, +0, +1
             std::vector<unsigned char> v = base; v[o] = val >> 24; v[o + 1] = val >> 16; v[o + 2] = val >> 8; v[o + 3] = val; if (val >= 0x7fffffffu) stat_add(P_HUGE_BLOB_LEN);
             snprintf(what, sizeof what, "word at offset %zu overwritten with 0x%08x (%zu bytes)", o, val, n); run_variant(v, F_WORD, what); }
+        // words relative to their own position: 2^32 - (offset behind the word) - d, d = 0..19 (sums that wrap, or just do not, in 32-bit position arithmetic)
+        for (size_t o = 0; o + 4 <= n && res.cls.empty(); o += 4) for (uint32_t dd = 0; dd < 20 && res.cls.empty(); dd++) {
+            uint32_t val = (uint32_t)(0u - (uint32_t)(o + 4) - dd);
+            std::vector<unsigned char> v = base; v[o] = val >> 24; v[o + 1] = val >> 16; v[o + 2] = val >> 8; v[o + 3] = val; stat_add(P_HUGE_BLOB_LEN);
+            snprintf(what, sizeof what, "word at offset %zu overwritten with 0x%08x = 2^32-%zu-%u (%zu bytes)", o, val, o + 4, dd, n); run_variant(v, F_WORD, what); }
+        // a size or length word of all ones, cut after 1..3 of its bytes (a truncated field read as 0xff..00)
+        for (size_t o = 0; o + 4 <= n && res.cls.empty(); o += 4) for (size_t cut = 1; cut <= 3 && res.cls.empty(); cut++) {
+            std::vector<unsigned char> v(base.begin(), base.begin() + o + cut); for (size_t q = 0; q < cut; q++) v[o + q] = 0xff;
+            snprintf(what, sizeof what, "word at offset %zu set to ff.. and the buffer cut after %zu of its bytes (%zu of %zu bytes)", o, cut, o + cut, n); run_variant(v, F_TRUNC, what); }
         for (size_t i = 0; i < n && res.cls.empty(); i++) if (!base[i]) for (int alt = 0; alt < 2 && res.cls.empty(); alt++) { std::vector<unsigned char> v = base; v[i] = alt ? 0xff : 'A'; snprintf(what, sizeof what, "NUL at offset %zu set to 0x%02x (%zu bytes)", i, v[i], n); run_variant(v, F_NUL, what); }
         if (!next.empty()) for (size_t k = 0; k <= n && res.cls.empty(); k++) { std::vector<unsigned char> v(base.begin(), base.begin() + k); if (k < next.size()) v.insert(v.end(), next.begin() + k, next.end()); snprintf(what, sizeof what, "spliced with the next message at offset %zu (%zu+%zu bytes)", k, n, next.size()); run_variant(v, F_SPLICE, what); }
         for (size_t mm = 1; mm <= 8 && res.cls.empty(); mm++) { std::vector<unsigned char> v = base; Rng r(shape + mm); for (size_t i = 0; i < mm; i++) v.push_back(mm % 2 ? 0 : (unsigned char)r.next()); snprintf(what, sizeof what, "%zu bytes appended (%zu bytes)", mm, n); run_variant(v, F_EXTEND, what); }
